@@ -25,6 +25,21 @@ CHECKS = {
              "scalar entry per frame-level violation, error_counts equals a recount of schema_errors by reason, and the message has one entry per error.",
         note="Trusted: reference model where it declares the report defined; structural normalisations listed in mc/props/c02.py (dict-valued frame-check rows, MultiIndex scalar rows).",
         ref="3/C02"),
+    "C03": dict(
+        technique="explicit-state exhaustive enumeration of a deviation-bounded input space; re-validation oracle (fixpoint + strip(S))",
+        text="Every (schema, table) of the parser-enabled edit space (coerce at every level, default, add_missing_columns, strict='filter', idempotent "
+             "custom parsers, drop_invalid_rows) is validated eagerly and lazily on pandas (DataFrame, Series with/without index schema, Column, Index, "
+             "MultiIndex) and polars (DataFrame and LazyFrame); every returned object must be accepted by the same schema with parsing switched off and "
+             "must be a fixpoint of validate.",
+        note="Trusted: strip_parsing (mc/spec/schema.py) really switches every parsing option off; custom parsers in the alphabet are idempotent.",
+        ref="3/C03"),
+    "C04": dict(
+        technique="explicit-state exhaustive enumeration of a deviation-bounded input space; before/after snapshot invariant",
+        text="Same parser-enabled space, every schema entry point (DataFrameSchema, SeriesSchema, Column, Index, MultiIndex, polars DataFrameSchema and "
+             "Column on DataFrame and LazyFrame) x {eager, lazy} x {pass, fail}: a deep value snapshot of the argument is identical before and after, and the "
+             "result has the input's container kind.",
+        note="Trusted: snapshot function (values, dtypes, labels, index, names, attrs); in-place writes that restore identical values are invisible by design.",
+        ref="3/C04"),
     "C18": dict(
         technique="explicit-state BFS over config_context histories + exhaustive enumeration of environment settings and depth decomposition",
         text="BFS over all enter/exit/exit-by-exception/probe histories of the real config_context up to nesting 3 (thorough 4), each "
